@@ -50,7 +50,7 @@ Print Assumptions C09_dot_hack_conversion_refuted.
 (* "{a.b: >4}" should render "  zz"; a spec containing whitespace is not matched, str.format evaluates "A".b and the
    AttributeError is not even turned into a templating error. *)
 Theorem C09_dot_hack_spec_space_refuted :
-  t_spec w_tab w_spec_space = Ok [32; 32; 122; 122]%N /\ t_render w_tab w_spec_space = Err ERuntime
+  t_spec w_tab w_spec_space = Ok [32; 32; 122; 122]%N /\ t_render w_tab w_spec_space = Err ETemplater
   /\ dot_hack w_spec_space = w_spec_space.
 Proof. exact refuted_spec_space. Qed.
 Print Assumptions C09_dot_hack_spec_space_refuted.
